@@ -7,6 +7,10 @@ if isinstance(stable, str):
     stable = ast.literal_eval(stable)
 out = tempfile.mktemp(suffix=".xml")
 cmd = b["cmd"].replace("<file>", out)
+import os
+repo = os.environ.get("DX_REPO")
+if repo:  # run the pinned suite on a scratch copy (mutation testing)
+    cmd = cmd.replace("cd /repo", f"cd {repo} && PYTHONPATH={repo}")
 if len(sys.argv) > 1:
     cmd += " -n " + sys.argv[1]
 subprocess.run(cmd, shell=True, stdout=subprocess.DEVNULL, stderr=subprocess.DEVNULL)
